@@ -90,6 +90,10 @@ func sharedSchema() *jsonapi.Schema {
 	t10 := softType("t10", fields10, kindMap{})
 	t10.NewFunc = func() jsonapi.Resource { return jsonapi.Wrap(reflect.New(st10).Interface()) }
 	must(s.AddType(*t10))
+	// a type declared by hand, every field under a key that is not its name
+	must(s.AddType(jsonapi.Type{Name: "t12",
+		Attrs: map[string]jsonapi.Attr{"k0": {Name: "a12", Type: jsonapi.AttrTypeString}, "k1": {Name: "b12", Type: jsonapi.AttrTypeInt}},
+		Rels:  map[string]jsonapi.Rel{"k2": {FromType: "t12", FromName: "r12", ToOne: true, ToType: "t1"}}}))
 	// a soft type in which an attribute and a relationship carry the same name (Schema.AddAttr and
 	// AddRel build it without complaint): a schema like any other for the read-only operations
 	must(s.AddType(jsonapi.Type{Name: "t11"}))
@@ -198,6 +202,12 @@ func sharedOp(s *jsonapi.Schema, op string, p int) {
 		must(err)
 		if str := u.String(); !strings.Contains(str, "filter=lbl-"+id+"&") && !strings.HasSuffix(str, "filter=lbl-"+id) {
 			panic("the text of the URL carries another request's filter label: " + str)
+		}
+		// requests that name the hand-declared type and its fields (whatever the answer, a question)
+		for _, raw := range []string{"/t12?fields[t12]=b12,a12,r12&sort=-b12", "/t12/1/r12", "/t12?include=r12&fields[t1]=a"} {
+			if u, err := jsonapi.NewURLFromRaw(s, raw); err == nil {
+				_ = u.String()
+			}
 		}
 		// the very same text as every other request sends (field names not in alphabetical order): what
 		// is parsed from it is nevertheless this request's own
